@@ -259,15 +259,22 @@ fn main() {
                 sighup_listener.recv().await;
                 info!("Reloading TLS hosts settings");
 
-                let tls_hosts_settings: settings::TlsHostsSettings = toml::from_str(
-                    &std::fs::read_to_string(&tls_hosts_settings_path)
-                        .expect("Couldn't read the TLS hosts settings file"),
-                )
-                .expect("Couldn't parse the TLS hosts settings file");
-
-                core.reload_tls_hosts_settings(tls_hosts_settings)
-                    .expect("Couldn't apply new settings");
-                info!("TLS hosts settings are successfully reloaded");
+                // a reload that fails leaves the previous settings in force
+                let reloaded = std::fs::read_to_string(&tls_hosts_settings_path)
+                    .map_err(|e| format!("Couldn't read the TLS hosts settings file: {}", e))
+                    .and_then(|x| {
+                        toml::from_str::<settings::TlsHostsSettings>(&x).map_err(|e| {
+                            format!("Couldn't parse the TLS hosts settings file: {}", e)
+                        })
+                    })
+                    .and_then(|x| {
+                        core.reload_tls_hosts_settings(x)
+                            .map_err(|e| format!("Couldn't apply new settings: {}", e))
+                    });
+                match reloaded {
+                    Ok(()) => info!("TLS hosts settings are successfully reloaded"),
+                    Err(e) => error!("TLS hosts settings are not reloaded: {}", e),
+                }
             }
         }
     };
